@@ -286,8 +286,9 @@ def check_adapter(J, ctx, it, ad, info, seq, name_expected, mk, what):
         if isinstance(rate, V.SFloatTab):
             parts = []
             for c, f in rate.entries:
-                parts.append(z3.Implies(c, z3.Or(*[z3.And(nonn == k, z3.BoolVal(f == me / k)) for k in range(1, L + 1)])))
-            claim = z3.And(nonn >= 1, *parts)
+                # same reference as the concrete replay: no non-N base -> the value stays as given
+                parts.append(z3.Implies(c, z3.Or(z3.And(nonn == 0, z3.BoolVal(f == me)), *[z3.And(nonn == k, z3.BoolVal(f == me / k)) for k in range(1, L + 1)])))
+            claim = z3.And(*parts)
         elif isinstance(rate, (int, float)):
             claim = z3.Or(z3.And(nonn == 0, z3.BoolVal(rate == me)), *[z3.And(nonn == k, z3.BoolVal(rate == me / k)) for k in range(1, L + 1)])
         else:
